@@ -142,6 +142,39 @@ def eval_case(case):
             save_doc(d, p)
             fails += check_package(p, psrc, f"document with lagging object counter ({os.path.basename(path)})")
             npk += 1
+        elif kind == "fixture-edit":
+            # every object-creating API call applied to a LOADED document (archive names of Numbers-written
+            # files carry identifier suffixes, e.g. DocumentStylesheet-<n>.iwa), then save
+            from numbers_parser import RGB, Border
+
+            path = case[1]
+            d, _ = open_doc(path)
+            tables = [t for s in d.sheets for t in s.tables if not d._model.is_a_pivot_table(t._table_id)]
+            t = tables[0]
+            st = d.add_style(name="FE style", bold=True, bg_color=RGB(10, 20, 30))
+            t.write(0, 0, "edited", style=st)
+            t.set_cell_border(0, 0, "top", Border(2.0, RGB(1, 2, 3), "solid"))
+            if t.num_rows >= 2 and t.num_cols >= 1:
+                t.write(1, 0, 1.5)
+                t.set_cell_formatting(1, 0, "number", decimal_places=2)
+                cf = d.add_custom_format(name="FE format", type="number", num_decimals=1)
+                t.set_cell_formatting(1, 0, "custom", format=cf)
+            if t.num_rows >= 3:
+                t.write(2, 0, "Dog")
+                t.set_cell_formatting(2, 0, "popup", popup_values=["Cat", "Dog"])
+            t.add_row(1)
+            t.caption = "FE caption"
+            t.caption_enabled = True
+            d.sheets[0].add_table("FE table", num_rows=2, num_cols=2)
+            d.sheets[0].tables[-1].write(0, 0, "Cat")
+            d.sheets[0].tables[-1].set_cell_formatting(0, 0, "popup", popup_values=["Cat", "Dog"])
+            d.add_sheet("FE sheet", "FE table 2", num_rows=2, num_cols=2)
+            d.sheets[-1].tables[0].write(1, 1, 2.5, style=st)
+            p = _tmp("fe")
+            tmp.append(p)
+            save_doc(d, p)
+            fails += check_package(p, path, f"object-creating edits on loaded {os.path.basename(path)}")
+            npk += 1
         elif kind == "shared":
             # two documents open in the same process that are given the SAME Style / BackgroundImage / Border objects
             from numbers_parser import RGB, BackgroundImage, Border, Document, Style
@@ -298,6 +331,9 @@ def cases(tier):
                                 (2, 300, "col", -100), (2, 257, "col", -2), (2, 255, "col", 2)]:
         cs.append(["resize", nr, nc, axis, delta])
     cs += [["shared", "ab"], ["shared", "ba"]]
+    for p, n in fx:
+        if n <= (400 if tier == "quick" else 4000) and os.path.basename(p) != "empty.numbers":
+            cs.append(["fixture-edit", p])
     rows = [1, 255, 256, 257, 512, 513]
     cols = [1, 256, 257, 1000]
     for nr in rows:
